@@ -11,13 +11,49 @@ import (
 )
 
 type (
-	Cond   = sync.Cond
 	Map    = sync.Map
 	Pool   = sync.Pool
 	Locker = sync.Locker
 )
 
-func NewCond(l Locker) *Cond { return sync.NewCond(l) }
+// Cond: Wait releases L, waits (through the scheduler for a scheduled thread) until a Signal / Broadcast
+// issued after the call covers its ticket, then re-acquires L. Signal wakes the oldest waiter.
+type Cond struct {
+	L        Locker
+	q        waitq
+	next     uint64 // next ticket
+	released uint64 // tickets below this value may proceed
+	waiting  uint64 // number of waiters not yet released
+}
+
+func NewCond(l Locker) *Cond { return &Cond{L: l} }
+
+func (c *Cond) Wait() {
+	c.q.g.Lock()
+	ticket := c.next
+	c.next++
+	c.waiting++
+	c.q.g.Unlock()
+	c.L.Unlock()
+	c.q.acquire(c, pcWait, func() bool { return ticket < c.released })
+	c.L.Lock()
+}
+
+func (c *Cond) Signal() {
+	c.q.update(c, func() {
+		if c.waiting > 0 {
+			c.waiting--
+			c.released++
+		}
+	})
+}
+
+func (c *Cond) Broadcast() {
+	c.q.update(c, func() {
+		c.released = c.next
+		c.waiting = 0
+	})
+}
 
 const (
 	pcLock   = -1
